@@ -23,6 +23,9 @@ func (e eng) Generate(seed uint64, prop, tier string) any {
 		if seed%4 == 3 {
 			return GenerateC18Random(seed, tier)
 		}
+		if seed%4 == 2 && seed%8 == 2 {
+			return GenerateC18UDP(seed, tier)
+		}
 		return GenerateC18(seed, tier)
 	}
 	return Generate(seed, prop, tier)
